@@ -5,13 +5,6 @@ From Coq Require Import ZifyBool.
 Local Open Scope Z_scope.
 Ltac Zify.zify_post_hook ::= Z.to_euclidean_division_equations.
 
-(* a conversion to a type that contains the value does not change it *)
-Lemma cast_id t x : WT t -> in_ty t x = true -> cast t x = x.
-Proof.
-  intros HT Hx. types t HT; range Hx; unfold cast; cbn [sgn bits];
-    first [apply ws_small | apply wu_small]; consts; lia.
-Qed.
-
 (* the usual arithmetic conversions keep both values when the operands have the same signedness
    or are both non-negative *)
 Lemma common_cast ta tb a b : WT ta -> WT tb -> in_ty ta a = true -> in_ty tb b = true ->
